@@ -9,10 +9,10 @@ package c15
 import (
 	"fmt"
 	"slices"
+	"strings"
 
 	"verif/harness/engine"
 	"verif/harness/rig"
-	"verif/harness/rig/refstore"
 )
 
 var pairSubjects = []string{"jwt-at", "jwt-at-b", "opaque-at", "rt", "idt", "idt-b", "idt-web", "expired-jwt-at", "expired-idt", "revoked-jwt-at",
@@ -34,18 +34,19 @@ var pairSpace = engine.Space{
 }
 
 // pairGetter maps the dimensions of the single-request alphabet to the x./y. dimensions of
-// pairSpace (dimensions a pair does not vary keep their default).
-func pairGetter(v engine.Vec, who string) func(string) string {
+// a pair space (a dimension without prefix is common to both requests; dimensions a pair does
+// not vary keep their default).
+func pairGetter(sp engine.Space, v engine.Vec, who string) func(string) string {
 	return func(n string) string {
 		if n == "router" {
-			r := pairSpace.Get(v, "router")
-			if who == "x" && pairSpace.Get(v, "x.router") == "other" {
+			r := sp.Get(v, "router")
+			if who == "x" && sp.Get(v, "x.router") == "other" {
 				r = rig.Routers[1-slices.Index(rig.Routers, r)]
 			}
 			return r
 		}
-		for i, d := range pairSpace {
-			if d.Name == who+"."+n {
+		for i, d := range sp {
+			if d.Name == who+"."+n || d.Name == n {
 				return d.Vals[v[i]]
 			}
 		}
@@ -53,13 +54,15 @@ func pairGetter(v engine.Vec, who string) func(string) string {
 	}
 }
 
-func (k *worker) runPair(v engine.Vec) engine.Result {
-	x, y := k.w.decode(pairGetter(v, "x")), k.w.decode(pairGetter(v, "y"))
+func (k *worker) runPair(v engine.Vec) engine.Result { return k.pair(pairSpace, v) }
+
+func (k *worker) pair(sp engine.Space, v engine.Vec) engine.Result {
+	x, y := k.w.decode(pairGetter(sp, v, "x")), k.w.decode(pairGetter(sp, v, "y"))
 	ex, ey := judge(x), judge(y)
 	var res engine.Result
 	if pan := engine.Bubble(k.t, caseAt, func() {
 		fresh := func() *rig.Rig {
-			r := newRig(refstore.CapAll)
+			r := rigFor(x.caps)
 			configure(r, x, ex) // the default policy, no policy claims (pairs do not vary them)
 			r.Core.Reset(k.w.st.Clone())
 			return r
@@ -76,8 +79,13 @@ func (k *worker) runPair(v engine.Vec) engine.Result {
 		if ry.Sig != "" {
 			return
 		}
-		key := fmt.Sprint(pairSpace.Get(v, "y.subj"), pairSpace.Get(v, "y.host"), pairSpace.Get(v, "y.auth"), pairSpace.Get(v, "y.requested"),
-			pairSpace.Get(v, "y.declared"), pairSpace.Get(v, "router"))
+		// everything the second request is a function of
+		key := sp[0].Name
+		for i, d := range sp {
+			if !strings.HasPrefix(d.Name, "x.") {
+				key += "|" + d.Vals[v[i]]
+			}
+		}
 		alone, ok := k.fresh[key]
 		if !ok {
 			r2 := fresh()
@@ -89,8 +97,8 @@ func (k *worker) runPair(v engine.Vec) engine.Result {
 		}
 		if alone != ry.Outcome {
 			res = engine.Bad(ry.Rule, ry.Outcome, fmt.Sprintf("C15/history-dependent/%s/%s", rig.Routers[y.router], ey.class),
-				fmt.Sprintf("the same request is answered %q as the first request of a provider's life and %q after an exchange of %s under host %s by %s",
-					alone, ry.Outcome, x.subj.kind, hosts[x.host], x.auth))
+				fmt.Sprintf("the same request (%s) is answered %q as the first request of a provider's life and %q after an exchange of %s",
+					describePair(y), alone, ry.Outcome, describePair(x)))
 		}
 	}); pan != "" {
 		k.w.c.Internal("harness panic: " + pan)
